@@ -365,6 +365,8 @@ def run(ctx):
     from props.c01 import expand_rule
     expand_rule(ctx, syn, rid="C17.EXPAND")   # to_webannotation walks targets through this expansion
     prefix_rule(ctx)
+    flags_rule(ctx, syn)
+    valueverbatim_rule(ctx, syn)
 
     # ---------------- SEP (separator / bracket typestate on the string accumulators)
     r_sep = ctx.rule("C17.SEP", "on every path through the exporter, members and elements are separated by exactly one comma, brackets are balanced and every function returns a complete JSON value (or member list)")
@@ -633,3 +635,64 @@ def prefix_rule(ctx, rid="C17.PREFIX"):
                 if PREFIX_KIND[k] != m.group(1):
                     ctx.report(r, "%s|%s-id-with-%s" % (mirq.short_fn(bid), k, m.group(1)), "%s turns the id of a %s into an IRI with config.%s: the same %s is named under %s elsewhere in the export (its keys in the body), so one item gets two different IRIs" % (mirq.short_fn(bid), k, m.group(1), k, PREFIX_KIND[k]), b.file, t.get("line"))
     ctx.floor(r, n, 5, "into_iri calls with a configured prefix")
+
+
+# ---------------------------------------------------------------------- FLAGS
+def flags_rule(ctx, syn, rid="C17.FLAGS"):
+    """`suppress_auto_generated` / `suppress_auto_generator` remember that the annotation's own data already supplied the
+    member the exporter would otherwise add (a second "generated" would make the object carry the key twice, and a
+    last-wins reader takes the wrong one).  They are raised when such a data item is seen and must never fall again."""
+    r = ctx.rule(rid, "the suppress_* flags of to_webannotation are only ever raised: every assignment to them is the constant true")
+    fns = [f for f in syn.fns if f.name == "to_webannotation" and f.file == FILE and f.body is not None]
+    if len(fns) != 1:
+        ctx.anchor_missing(r, "to_webannotation")
+        return
+    fn = fns[0]
+    flags = set()
+    for nd in walk(fn.body):
+        if nd.get("k") == "let" and nd["pat"].get("name", "").startswith("suppress_"):
+            flags.add(nd["pat"]["name"])
+    n = 0
+    for nd in walk(fn.body):
+        if nd.get("k") == "assign" and strip(nd["left"]).get("k") == "path" and strip(nd["left"])["path"][-1] in flags:
+            n += 1
+            rhs = strip(nd["right"])
+            nm = strip(nd["left"])["path"][-1]
+            r.hit("%s#%d" % (nm, n), sample={"flag": nm, "assigned": unparse(nd["right"])[:30]})
+            if not (rhs.get("k") == "lit" and rhs.get("t") == "bool" and rhs.get("v") is True) and unparse(rhs) != "true":
+                ctx.report(r, "%s|lowered" % nm, "to_webannotation assigns `%s` to %s: a later data item can reset the flag an earlier explicit `%s` raised, and the exporter then adds its automatic member next to the explicit one (the key occurs twice in the object)" % (unparse(nd["right"])[:40], nm, nm.replace("suppress_auto_", "")), fn.file, nd.get("l"))
+    ctx.floor(r, len(flags), 2, "suppress_* flags")
+    ctx.floor(r, n, 2, "assignments to suppress_* flags")
+
+
+# ---------------------------------------------------------------------- VALUEVERBATIM
+VALUE_TRANSFORMS = {"trim", "trim_start", "trim_end", "trim_matches", "trim_start_matches", "trim_end_matches", "to_lowercase", "to_uppercase", "to_ascii_lowercase", "to_ascii_uppercase",
+                    "replace", "replacen", "strip_prefix", "strip_suffix", "split_whitespace", "normalize"}
+
+
+def valueverbatim_rule(ctx, syn, rid="C17.VALUE"):
+    """the body carries each data value with the same content: the only thing that may happen to the payload of a string
+    value on its way into the output is JSON escaping (and the IRI test that picks the shape of the member)."""
+    r = ctx.rule(rid, "in the exporter no string payload of a DataValue passes through a trimming / re-casing / replacing call: the exported content is the stored content")
+    n = 0
+    for fn in syn.fns:
+        if fn.file != FILE or not fn.body:
+            continue
+        bound = set()
+        for nd in walk(fn.body):
+            if nd.get("k") == "pat" and nd.get("p") == "tuplestruct" and nd.get("path") and nd["path"][-1] == "String" and len(nd["path"]) >= 2 and nd["path"][-2] == "DataValue":
+                for q in walk(nd):
+                    if q.get("k") == "pat" and q.get("p") == "ident":
+                        bound.add(q["name"])
+        if not bound:
+            continue
+        n += 1
+        r.hit(fn.qual, sample={"fn": fn.qual, "string_payloads": sorted(bound)})
+        for c in walk(fn.body):
+            if c.get("k") == "mcall" and c["method"] in VALUE_TRANSFORMS:
+                rv_ = strip(c["recv"])
+                while rv_.get("k") in ("mcall",) and rv_["method"] in ("as_str", "as_ref", "clone", "to_string", "deref"):
+                    rv_ = strip(rv_["recv"])
+                if rv_.get("k") == "path" and len(rv_["path"]) == 1 and rv_["path"][0] in bound:
+                    ctx.report(r, "%s|%s" % (fn.name, c["method"]), "%s applies .%s() to the payload `%s` of a string value: what is exported (or the decision how to export it) is no longer the stored value - e.g. a string that is an IRI only after trimming is exported as an {\"id\": ..} object without its whitespace" % (fn.name, c["method"], rv_["path"][0]), fn.file, c.get("l"))
+    ctx.floor(r, n, 1, "functions that take a string payload apart")
